@@ -990,7 +990,13 @@ class BackendZ3(Backend):
         sat = z3_solver_sat(solver, constraints, comment)
         if sat and model_callback is not None:
             model_callback(self._generic_model(solver.model()))
-        return hi if sat == is_max else lo
+        result = hi if sat == is_max else lo
+        if not sat and model_callback is not None:
+            # report a model that witnesses the optimum, so that callers caching models have one
+            constraints[-1] = expr == result
+            if z3_solver_sat(solver, constraints, comment):
+                model_callback(self._generic_model(solver.model()))
+        return result
 
     @condom
     def _min(self, expr, extra_constraints=(), signed=False, solver=None, model_callback=None):
